@@ -111,7 +111,7 @@ PROPS = {
     },
     "C10": {
         "statement": "C10_skipped_stage_justified (+ simulation by the five-table builder)",
-        "engines": [plan("plan,deps,barriers,funnel,manyres,kf1,wide", quick=1000), plan_nopar("plan,deps,barriers,funnel"), plan_release("plan,deps,barriers,funnel")],
+        "engines": [plan("plan,deps,barriers,funnel,manyres,kf1,wide,malformed", quick=1000), plan_nopar("plan,deps,barriers,funnel"), plan_release("plan,deps,barriers,funnel")],
         "aspects": ["layout", "outcome", "maxthreads"],
         "assumptions": [],
     },
